@@ -77,6 +77,18 @@ fn main() {
             ];
             println!("{}", serde_json::to_string_pretty(&serde_json::json!({"cfg": CaseCfg::default(), "steps": st})).unwrap());
         }
+        Some("dumpscript") => {
+            // the JSON form of one scripted history: dumpscript <name> <seed>
+            let name = args.get(2).map(|s| s.as_str()).unwrap_or("");
+            let seed: u64 = args.get(3).and_then(|s| s.parse().ok()).unwrap_or(1);
+            let mut r = rng::Rng::new(seed);
+            let (cfg, st) = match name {
+                "stalled-probe" => scripts::stalled_probe_script(&mut r, 0, runner::Tier::Quick),
+                "ping-between-pieces" => scripts::ping_between_pieces_script(&mut r, 0, runner::Tier::Quick),
+                _ => usage(),
+            };
+            println!("{}", serde_json::to_string_pretty(&serde_json::json!({"cfg": cfg, "steps": st})).unwrap());
+        }
         Some("script") => {
             // run one hand-written history and print it: script <file.json> ({"cfg": CaseCfg, "steps": [Step..]})
             let f = args.get(2).unwrap_or_else(|| usage());
